@@ -230,6 +230,7 @@ func (runInfo *runInfoStruct) runVarStmt(stmt *ast.VarStmt) {
 
 	// define all names with right side values
 	for i = 0; i < len(rvs) && i < len(stmt.Names); i++ {
+		rvs[i] = ownValue(rvs[i])
 		runInfo.env.DefineValue(stmt.Names[i], rvs[i])
 	}
 
@@ -526,6 +527,7 @@ func (runInfo *runInfoStruct) runForSliceStmt(stmt *ast.ForStmt, value reflect.V
 		if iv.Kind() == reflect.Ptr && !iv.IsNil() {
 			iv = iv.Elem()
 		}
+		iv = ownValue(iv)
 		runInfo.env.DefineValue(stmt.Vars[0], iv)
 
 		runInfo.stmt = stmt.Stmt
